@@ -126,6 +126,7 @@ func (w *world) checkDial(who string, got []string) {
 func (w *world) main() {
 	p := w.p
 	vrand.YieldInShuffle = p.Yield
+	vsched.SpawnPoints = p.Threads > 0 // concurrent scenarios: a dial can be preempted right before it spawns its per-family dials
 	nthreads := p.Threads + 1
 	w.dials = make([][]string, nthreads)
 	// thread-indexed recording: the base dial is called from the goroutines the
